@@ -34,6 +34,8 @@
 #include "utils/DAC_VLS.h"
 #include "utils/LogSequence.h"
 #include "utils/VByte.h"
+#include <cmath>
+#include "Hash/HashUtils.h"
 #include <BitSequenceDArray.h>
 #include <BitSequenceRG.h>
 #include <BitSequenceRRR.h>
@@ -566,6 +568,14 @@ static void do_repair() {
   });
 }
 
+// ------------------------------------------------------------------------------------ hash table sizes
+static void do_hashutil() {
+  section("hashutil-nearest-prime", [] {
+    size_t lim = thorough ? 20000 : 3000;
+    for (size_t n = 1; n <= lim; n++) fprintf(out, "{\"e\":\"NP\",\"n\":%zu,\"r\":%zu}\n", n, nearest_prime(n));
+  });
+}
+
 int main(int argc, char **argv) {
   if (argc < 5) return 2;
   std::string what = argv[1];
@@ -579,6 +589,7 @@ int main(int argc, char **argv) {
   else if (what == "bitseq") do_bitseq();
   else if (what == "wt") do_wt();
   else if (what == "repair") do_repair();
+  else if (what == "hashutil") do_hashutil();
   fclose(out);
   return 0;
 }
